@@ -306,12 +306,60 @@ def inplace(rc):
 
 
 
+@rule("C20.cache", "the cached precision matrix is dropped or re-derived whenever a Gaussian's covariance is replaced", floor=3)
+def cache(rc):
+    """GaussianDistribution memoises inv(covariance) in `_precision_matrix`.  After `B.covariance = ...` the only coherent values of
+    B._precision_matrix are None (recomputed on demand), inv(B.covariance), or — when the covariance is taken over from another
+    distribution P (`B.covariance = P.covariance`) — P's own cache.  A block of the OLD precision is the conditional's precision, not
+    the marginal's."""
+    from ..guards import sites
+    repo = rc.repo
+    cls = repo.cls(GD, "GaussianDistribution")
+    n = 0
+    for f in cls.methods.values():
+        covs = [s_ for s_ in sites(f.node, lambda x: isinstance(x, ast.Assign) and isinstance(x.targets[0], ast.Attribute) and x.targets[0].attr == "covariance")]
+        for s_ in covs:
+            base = norm(s_.node.targets[0].value)
+            n += 1
+            src = None
+            if isinstance(s_.node.value, ast.Attribute) and s_.node.value.attr == "covariance":
+                src = norm(s_.node.value.value)
+            later = [x for x in sites(f.node, lambda x: isinstance(x, ast.Assign) and isinstance(x.targets[0], ast.Attribute) and x.targets[0].attr == "_precision_matrix"
+                                      and norm(x.targets[0].value) == base) if x.node.lineno > s_.node.lineno]
+            ok = False
+            for l in later:
+                v = l.node.value
+                coherent = (isinstance(v, ast.Constant) and v.value is None) or tm.is_(v, "np.linalg.inv(__C)") is not None and norm(tm.is_(v, "np.linalg.inv(__C)")["__C"]) == f"{base}.covariance" \
+                    or (src is not None and norm(v) == f"{src}._precision_matrix")
+                # must not be more conditional than the covariance store itself
+                extra = [c for c in l.conds if not any(c[0] is c2[0] and c[1] == c2[1] for c2 in s_.conds)]
+                if coherent and not extra:
+                    ok = True
+                elif not coherent:
+                    rc.fail(f, l.node, f"{f.qual}: after `{norm(s_.node, 70)}` the cached precision of `{base}` is set to `{norm(v, 70)}` — neither dropped (None), nor inv of the new covariance, "
+                            "nor the cache of the distribution the covariance came from; precision-based operations (to_canonical_factor, product, divide) then describe another density",
+                            construct=f"{f.name} stale precision {norm(v, 60)}")
+                    ok = True  # reported
+            rc.ob(f"{f.qual}: `{norm(s_.node, 60)}` followed by a coherent precision-cache update: {ok}")
+            if not ok:
+                rc.fail(f, s_.node, f"{f.qual}: `{norm(s_.node, 70)}` replaces the covariance of `{base}` but its cached precision matrix is not dropped/re-derived on the same path",
+                        construct=f"{f.name} precision not invalidated")
+    if n < 3:
+        raise AnalysisError(f"GaussianDistribution: only {n} covariance stores found")
+
+
 @rule("C20.defuse", "anchored files: no parameter is accepted and ignored (generic def-use detector, triaged exemptions)", floor=2)
 def defuse(rc):
     from . import shared as _sh
     _sh.defuse_rule(rc, _sh.anchor_files("C20"))
 
 MUTANTS = [
+    dict(kind="break", name="marginalize-keeps-precision-block", file=GD, expect="C20.cache",
+         old="        phi.covariance = phi.covariance[np.ix_(index_to_keep, index_to_keep)]\n        phi._precision_matrix = None", new="        phi.covariance = phi.covariance[np.ix_(index_to_keep, index_to_keep)]\n        if phi._precision_matrix is not None:\n            phi._precision_matrix = phi._precision_matrix[np.ix_(index_to_keep, index_to_keep)]"),
+    dict(kind="break", name="reduce-forgets-precision", file=GD, expect="C20.cache",
+         old="        phi.covariance = sig_j_j - np.linalg.multi_dot([sig_j_i, sig_i_i_inv, sig_i_j])\n        phi._precision_matrix = None", new="        phi.covariance = sig_j_j - np.linalg.multi_dot([sig_j_i, sig_i_i_inv, sig_i_j])"),
+    dict(kind="twin", name="marginalize-recomputes-precision", file=GD,
+         old="        phi.covariance = phi.covariance[np.ix_(index_to_keep, index_to_keep)]\n        phi._precision_matrix = None", new="        phi.covariance = phi.covariance[np.ix_(index_to_keep, index_to_keep)]\n        phi._precision_matrix = np.linalg.inv(phi.covariance)"),
     dict(kind="break", name="predict-paired-index", file=LG, expect="C20.submatrix",
          old="cov_aa = cov[np.ix_(missing_indexes, missing_indexes)]", new="cov_aa = cov[missing_indexes, missing_indexes]"),
     dict(kind="break", name="gaussian-marginalize-paired-index", file=GD, expect="C20.submatrix",
